@@ -59,6 +59,13 @@ MUTANTS = [
     ('full-sweep-reshape-off-by-one', F, "full_tensor = full_tensor.reshape(np.prod(self.row_dims[:i + 1]) * np.prod(self.col_dims[:i + 1]),", "full_tensor = full_tensor.reshape(np.prod(self.row_dims[:i]) * np.prod(self.col_dims[:i + 1]),", 'TT.full', 'reshape-size'),
     ('full-no-boundary-check', F, "        if self.ranks[0] != 1 or self.ranks[-1] != 1:\n            raise ValueError(\"The first and last rank have to be 1!\")\n\n        # reshape first core", "        # reshape first core", 'TT.full', ''),
     ('full-transpose-as-function (harmless)', F, "full_tensor = full_tensor.reshape(p).transpose(q)", "full_tensor = full_tensor.reshape(p)\n        full_tensor = full_tensor.transpose(q)", 'TT.full', None),
+    ('arr-guess-not-copied', 'scikit_tt/data_driven/regression.py', "solution = [initial_guess.copy() for _ in range(y_data.shape[0])]", "solution = [initial_guess for _ in range(y_data.shape[0])]", 'fn:arr', '*'),
+    ('arr-update-writes-the-guess', 'scikit_tt/data_driven/regression.py', "                    __arr_update_core(i, micro_matrix, rhs, solution[k], rcond, 'forward')", "                    __arr_update_core(i, micro_matrix, rhs, initial_guess, rcond, 'forward')", 'fn:arr', 'frame'),
+    ('arr-forward-update-on-last-core', 'scikit_tt/data_driven/regression.py', "                if i < order - 1:\n                    # construct micro system", "                if i < order:\n                    # construct micro system", 'fn:arr', 'pre['),
+    ('arr-backward-right-stack-not-rebuilt', 'scikit_tt/data_driven/regression.py', "                # update right stack\n                __arr_construct_stack_right(i, stack_right, x_data, basis_list, solution[k])\n\n                # construct micro system", "                # construct micro system", 'fn:arr', 'pre['),
+    ('arr-rhs-column-instead-of-row', 'scikit_tt/data_driven/regression.py', "rhs = y_data[k, :]", "rhs = y_data[:, k]", 'fn:arr', ''),
+    ('arr-wrong-solution-in-backward-sweep', 'scikit_tt/data_driven/regression.py', "                __arr_update_core(i, micro_matrix, rhs, solution[k], rcond, 'backward')", "                __arr_update_core(i, micro_matrix, rhs, solution[0], rcond, 'backward')", 'fn:arr', '*'),
+    ('arr-counter-renamed (harmless)', 'scikit_tt/data_driven/regression.py', "counter", "n_done", 'fn:arr', None),
 ]
 
 
@@ -98,7 +105,7 @@ def main():
                 ok = not failing and not unsup and not any(x['bad'] for x in res)
                 print('%-45s %s (harmless change %s)' % (mid, 'OK' if ok else 'FALSE-ALARM', 'stays green' if ok else 'flagged: %s %s' % (failing[:3], unsup[:1])))
             else:
-                hit = [n for n in failing if frag in n]
+                hit = [n for n in failing if frag in n] if frag != '*' else (failing or unsup or [n for x in res for (n, st) in x['bad']])
                 ok = bool(hit)
                 print('%-45s %s %s' % (mid, 'CAUGHT' if ok else 'MISSED', (hit[:2] if ok else 'failing=%s unsupported=%s' % (failing[:3], unsup[:1]))))
             bad += not ok
